@@ -754,15 +754,664 @@ def load_corpus():
     return cases
 
 
+# --------------------------------------------------------------------------
+# property oracle on the real code (model independent)
+# --------------------------------------------------------------------------
+def _h(a):
+    a = np.ascontiguousarray(a)
+    return hashlib.sha1(a.tobytes() + str(a.dtype).encode()
+                        + str(a.shape).encode()).hexdigest()
+
+
+def same(a, b, rtol=0.0):
+    """None if equal (NaN == NaN), else (index, a, b)"""
+    a = np.atleast_1d(np.asarray(a, dtype=float))
+    b = np.atleast_1d(np.asarray(b, dtype=float))
+    if a.shape != b.shape:
+        return (-1, a.shape, b.shape)
+    na, nb = np.isnan(a), np.isnan(b)
+    bad = na != nb
+    with np.errstate(all="ignore"):
+        bad |= (~na & ~nb) & (np.abs(a - b) > rtol * np.abs(a))
+    if bad.any():
+        i = int(np.argmax(bad))
+        return (i, float(a[i]), float(b[i]))
+    return None
+
+
+def close_outside_band(a, b, dist, cond, rtol=RTOL):
+    """like same(), but NaN-ness may differ within BAND of the hull and the
+    tolerance grows with the conditioning of the triangle"""
+    a = np.atleast_1d(np.asarray(a, dtype=float))
+    b = np.atleast_1d(np.asarray(b, dtype=float))
+    for i in range(a.size):
+        near = (not np.isnan(dist[i])) and abs(dist[i]) <= BAND
+        na, nb = np.isnan(a[i]), np.isnan(b[i])
+        if na or nb:
+            if na != nb and not near:
+                return (i, float(a[i]), float(b[i]))
+            continue
+        if abs(a[i] - b[i]) > (rtol + 1e-14 * cond[i]) * abs(a[i]) + 1e-300:
+            return (i, float(a[i]), float(b[i]))
+    return None
+
+
+class Scn:
+    """a scenario: everything get_emodulus needs"""
+
+    def __init__(self, case):
+        self.case = case
+        self.L = lut_from_case(case["lut"])
+        self.cw, self.fr, self.px = case["cw"], case["fr"], case["px"]
+        self.med = case["medium"]
+        self.x = np.array(case["x"], dtype=float)
+        self.d = np.array(case["d"], dtype=float)
+        self.arg = self.L.name if self.L.name else lut_arg_tuple(self.L)
+
+    def f(self, x=None, d=None, med=None, cw=None, fr=None, px=None,
+          arg=None, **kw):
+        with np.errstate(all="ignore"):
+            return call_emod(self.L, self.arg if arg is None else arg,
+                             self.cw if cw is None else cw,
+                             self.fr if fr is None else fr,
+                             self.px if px is None else px,
+                             self.med if med is None else med,
+                             self.x if x is None else x,
+                             self.d if d is None else d, **kw)
+
+    def sub_med(self, idx):
+        med = self.med
+        if route_of(med) == "array" and len(med["temp"]) == self.x.size \
+                and self.x.size != 1:
+            return dict(med, temp=[med["temp"][i] for i in idx])
+        return med
+
+    def ref(self, **kw):
+        a = dict(cw=self.cw, fr=self.fr, px=self.px, med=self.med, x=self.x,
+                 d=self.d)
+        a.update(kw)
+        with np.errstate(all="ignore"):
+            return reference(self.L, a["cw"], a["fr"], a["px"], a["med"],
+                             a["x"], a["d"])
+
+
+def chk_reference(sc, rng):
+    """equals the scaled piecewise-linear interpolation; NaN exactly outside
+    the support (own convex hull, exact orientation tests)"""
+    E = sc.f()
+    R, dist, cond, _ = sc.ref()
+    bad = compare_values(R, E, dist, cond)
+    if bad:
+        i = bad[0]
+        return ("event %d (x=%r, deform=%r): get_emodulus=%r, scaled linear "
+                "interpolation of the LUT=%r (hull distance %.3g)" % (
+                    i, sc.x[i], sc.d[i], float(E[i]), float(R[i]), dist[i]))
+    E = np.atleast_1d(E)
+    for i in range(E.size):
+        if np.isnan(dist[i]):
+            if not np.isnan(E[i]):
+                return "event %d is not finite but emodulus=%r" % (i, E[i])
+        elif dist[i] > BAND and np.isnan(E[i]):
+            return ("event %d (x=%r, deform=%r) lies inside the support "
+                    "(distance %.3g to the hull) but emodulus is NaN" % (
+                        i, sc.x[i], sc.d[i], dist[i]))
+        elif dist[i] < -BAND and not np.isnan(E[i]):
+            return ("event %d (x=%r, deform=%r) lies outside the support "
+                    "(distance %.3g) but emodulus=%r" % (
+                        i, sc.x[i], sc.d[i], -dist[i], E[i]))
+    return None
+
+
+def chk_batch(sc, rng):
+    """the value of an event does not depend on the other events"""
+    E = np.atleast_1d(sc.f())
+    n = sc.x.size
+    if n == 0:
+        return None
+    tol = 1e-12
+    for trial in range(4):
+        k = rng.randint(1, n)
+        idx = [rng.randrange(n) for _ in range(k)]      # with repetitions
+        if trial == 0:
+            idx = list(range(n))[::-1]
+        elif trial == 1:
+            idx = [rng.randrange(n)]
+        sub = np.atleast_1d(sc.f(x=sc.x[idx], d=sc.d[idx],
+                                 med=sc.sub_med(idx)))
+        r = same(E[idx], sub, tol)
+        if r:
+            return ("event %d of the batch (x=%r, deform=%r) has emodulus %r "
+                    "in the full batch but %r in the sub-batch with indices "
+                    "%s" % (idx[r[0]], sc.x[idx[r[0]]], sc.d[idx[r[0]]],
+                            r[1], r[2], idx[:20]))
+    # split in two halves
+    h = n // 2
+    a = np.atleast_1d(sc.f(x=sc.x[:h], d=sc.d[:h],
+                           med=sc.sub_med(range(h)))) if h else np.zeros(0)
+    b = np.atleast_1d(sc.f(x=sc.x[h:], d=sc.d[h:],
+                           med=sc.sub_med(range(h, n))))
+    r = same(E, np.concatenate([a, b]), tol)
+    if r:
+        return "split at %d: event %d: %r vs %r" % (h, r[0], r[1], r[2])
+    # python scalars (0-d) for the scalar route
+    if route_of(sc.med) == "scalar":
+        i = rng.randrange(n)
+        s0 = sc.f(x=float(sc.x[i]), d=float(sc.d[i]))
+        r = same(E[i], s0, tol)
+        if r:
+            return ("event %d alone as python floats gives %r, in the batch "
+                    "%r" % (i, r[2], r[1]))
+    # input containers / dtypes
+    r = same(E, sc.f(x=list(sc.x), d=list(sc.d)), 0.0)
+    if r:
+        return "list input differs from ndarray input: event %d: %r vs %r" % r
+    x32 = sc.x.astype(np.float32)
+    d32 = sc.d.astype(np.float32)
+    r = same(sc.f(x=x32.astype(float), d=d32.astype(float)),
+             sc.f(x=x32, d=d32), 0.0)
+    if r:
+        return "float32 input differs from its float64 copy: event %d: " \
+               "%r vs %r" % r
+    return None
+
+
+def chk_scalar_vs_array(sc, rng):
+    """temperature per event (all equal) or globally"""
+    if sc.med["kind"] != "known" or sc.x.size == 0:
+        return None
+    t = sc.med["temp"]
+    t = t[0] if isinstance(t, list) else t
+    n = sc.x.size
+    m0 = dict(sc.med, temp=t)
+    E0 = sc.f(med=m0)
+    _, dist, cond, _ = sc.ref(med=m0)
+    for m1 in (dict(sc.med, temp=[t] * n), dict(sc.med, temp=[t])):
+        E1 = sc.f(med=m1)
+        r = close_outside_band(E0, E1, dist, cond)
+        if r:
+            return ("event %d (x=%r, deform=%r): temperature %r as scalar "
+                    "gives %r, as array of length %d gives %r" % (
+                        r[0], sc.x[r[0]], sc.d[r[0]], t, r[1],
+                        len(m1["temp"]), r[2]))
+    return None
+
+
+def chk_proportional(sc, rng):
+    """E ~ viscosity and E ~ flow rate (numeric viscosity)"""
+    v = sc.med["v"] if sc.med["kind"] == "num" else 4.5
+    k = rng.choice([2.0, 0.5, 3.0, 1.7, 10.0])
+    E0 = np.atleast_1d(sc.f(med=dict(kind="num", v=v)))
+    E1 = np.atleast_1d(sc.f(med=dict(kind="num", v=v * k)))
+    r = same(E0 * k, E1, 1e-12)
+    if r:
+        return ("event %d: viscosity %r -> %r: emodulus %r -> %r, expected "
+                "%r" % (r[0], v, v * k, float(E0[r[0]]), r[2], r[1]))
+    E2 = np.atleast_1d(sc.f(med=dict(kind="num", v=v), fr=sc.fr * k))
+    r = same(E0 * k, E2, 1e-12)
+    if r:
+        return ("event %d: flow rate %r -> %r: emodulus %r -> %r, expected "
+                "%r" % (r[0], sc.fr, sc.fr * k, float(E0[r[0]]), r[2], r[1]))
+    if route_of(sc.med) == "array":
+        # per-event viscosities: compare with the global-viscosity call
+        # event by event through the reference viscosity
+        vs = viscosities(sc.med, sc.cw, sc.fr, sc.x.size)
+        if np.isfinite(vs).all() and sc.x.size:
+            EA = np.atleast_1d(sc.f())
+            r = same(E0 / v * vs, EA, 1e-9)
+            if r:
+                return ("event %d: per-event viscosity %r: emodulus %r, "
+                        "expected %r (global viscosity %r gives %r)" % (
+                            r[0], vs[r[0]], r[2], r[1], v, E0[r[0]]))
+    return None
+
+
+def chk_rescale(sc, rng):
+    """joint geometric rescaling of the set-up leaves E unchanged"""
+    lam = rng.choice([2.0, 0.5, 1.5, 1.25, 3.0, rng.uniform(0.5, 2.5)])
+    E0 = sc.f()
+    _, dist, cond, _ = sc.ref()
+    E1 = sc.f(x=sc.x * lam ** sc.L.pw, cw=sc.cw * lam, px=sc.px * lam,
+              fr=sc.fr * lam ** 3)
+    r = close_outside_band(E0, E1, dist, cond)
+    if r:
+        return ("event %d (x=%r, deform=%r): emodulus %r, after rescaling "
+                "the set-up by %r (width, pixel size x lam; %s x lam^%d; "
+                "flow rate x lam^3) %r" % (
+                    r[0], sc.x[r[0]], sc.d[r[0]], r[1], lam, sc.L.feat,
+                    sc.L.pw, r[2]))
+    return None
+
+
+def chk_px0(sc, rng):
+    """pixel size 0 disables the correction; otherwise the correction is
+    the documented offset subtracted from the deformation"""
+    if not sc.px:
+        E0 = sc.f(px=0)
+        E1 = sc.f(px=0.0)
+        r = same(E0, E1)
+        return ("px_um=0 vs px_um=0.0: event %d: %r vs %r" % r) if r else None
+    with np.errstate(all="ignore"):
+        dc = sc.d - ref_delta(sc.L.feat, sc.x, sc.px)
+    E0 = sc.f()
+    E1 = sc.f(px=0, d=dc)
+    _, dist, cond, _ = sc.ref()
+    r = close_outside_band(E0, E1, dist, cond)
+    if r:
+        return ("event %d (x=%r, deform=%r): px_um=%r gives %r; px_um=0 with "
+                "the documented offset subtracted gives %r" % (
+                    r[0], sc.x[r[0]], sc.d[r[0]], sc.px, r[1], r[2]))
+    return None
+
+
+def chk_nomutation(sc, rng):
+    """neither the caller's arrays nor the tables are modified; earlier
+    calls do not matter"""
+    from dclab.features.emodulus import load
+    x, d = sc.x.copy(), sc.d.copy()
+    med = sc.med
+    kw = medium_kwargs(med)
+    tarr = kw["temperature"] if isinstance(kw["temperature"], np.ndarray) \
+        else None
+    arg = sc.arg
+    if isinstance(arg, tuple):
+        arr, meta = arg
+        before_l = (_h(arr), json.dumps(meta, sort_keys=True))
+    else:
+        path = os.path.join(emod_dir(), "lut_%s.txt" % arg)
+        before_l = hashlib.sha1(open(path, "rb").read()).hexdigest()
+        before_load = _h(load.load_lut(arg)[0])
+    ext = dict(load.EXTERNAL_LUTS)
+    hx, hd = _h(x), _h(d)
+    ht = _h(tarr) if tarr is not None else None
+    from dclab.features import emodulus as em
+    args = dict(deform=d, channel_width=sc.cw, flow_rate=sc.fr, px_um=sc.px,
+                lut_data=arg)
+    args["area_um" if sc.L.feat == "area_um" else "volume"] = x
+    args.update(kw)
+    with np.errstate(all="ignore"):
+        E1 = em.get_emodulus(**args)
+        # an unrelated call in between
+        other = builtin_lut("HE-3D-FEM-22")
+        em.get_emodulus(deform=np.array([0.02, 0.5]),
+                        area_um=np.array([80.0, 10.0]), medium=3.3,
+                        channel_width=25.0, flow_rate=0.2, px_um=0.3,
+                        temperature=None, visc_model=None,
+                        lut_data=other.name)
+        E2 = em.get_emodulus(**args)
+    if _h(x) != hx or _h(d) != hd:
+        return "the caller's %s array was modified" % (
+            sc.L.feat if _h(x) != hx else "deform")
+    if tarr is not None and _h(tarr) != ht:
+        return "the caller's temperature array was modified"
+    if isinstance(arg, tuple):
+        if (_h(arr), json.dumps(meta, sort_keys=True)) != before_l:
+            return "the caller's (LUT array, meta) was modified"
+    else:
+        if hashlib.sha1(open(path, "rb").read()).hexdigest() != before_l:
+            return "the LUT file %s was modified" % path
+        if _h(load.load_lut(arg)[0]) != before_load:
+            return "load_lut(%r) returns different data after the calls" % arg
+    if dict(load.EXTERNAL_LUTS) != ext:
+        return "EXTERNAL_LUTS changed"
+    r = same(E1, E2)
+    if r:
+        return ("the same call repeated after an unrelated call gives a "
+                "different value for event %d: %r then %r" % r)
+    E1 = np.atleast_1d(E1)
+    if E1.size and (np.shares_memory(E1, x) or np.shares_memory(E1, d)):
+        return "the result shares memory with an input array"
+    return None
+
+
+_REG = {"n": 0}
+
+
+def chk_lutvia(sc, rng, scratch):
+    """a LUT given by path, registered identifier or (array, meta) gives the
+    same values; built-in tables by identifier, by path, by tuple"""
+    from dclab.features.emodulus import load
+    if sc.L.name:
+        path = os.path.join(emod_dir(), "lut_%s.txt" % sc.L.name)
+        E0 = sc.f()
+        E1 = sc.f(arg=path)
+        import pathlib
+        E2 = sc.f(arg=pathlib.Path(path))
+        E3 = sc.f(arg=load.load_lut(sc.L.name))
+        for nm, e in (("path str", E1), ("pathlib.Path", E2),
+                      ("(array, meta) from load_lut", E3)):
+            r = same(E0, e)
+            if r:
+                return "built-in identifier vs %s: event %d: %r vs %r" % (
+                    (nm,) + r)
+        return None
+    _REG["n"] += 1
+    ident = "verif-lut-%d-%d" % (os.getpid(), _REG["n"])
+    path = os.path.join(scratch, ident + ".txt")
+    sc.L.write(path, ident)
+    raw = open(path, "rb").read()
+    E0 = sc.f()
+    E1 = sc.f(arg=path)
+    load.register_lut(path)
+    try:
+        if load.EXTERNAL_LUTS.get(ident) != path:
+            return "register_lut did not register %s" % ident
+        E2 = sc.f(arg=ident)
+        E3 = sc.f(arg=load.load_lut(ident))
+        E4 = sc.f(arg=ident)
+    finally:
+        load.EXTERNAL_LUTS.pop(ident, None)
+    for nm, e in (("path", E1), ("registered identifier", E2),
+                  ("(array, meta) from load_lut", E3),
+                  ("registered identifier, second call", E4)):
+        r = same(E0, e)
+        if r:
+            return "(array, meta) vs %s: event %d: %r vs %r" % ((nm,) + r)
+    if open(path, "rb").read() != raw:
+        return "the registered LUT file was modified"
+    return None
+
+
+def chk_dataset(sc, rng, scratch):
+    """ds["emodulus"] (ancillary feature, cases A/B/C) equals get_emodulus"""
+    import dclab
+    from dclab.features.emodulus import load
+    if sc.L.feat != "area_um" or sc.x.size == 0 or not sc.px:
+        return None
+    if not np.isfinite(sc.x).all() or not np.isfinite(sc.d).all():
+        return None
+    ident = sc.L.name
+    registered = None
+    if not ident:
+        _REG["n"] += 1
+        ident = "verif-lut-%d-%d" % (os.getpid(), _REG["n"])
+        path = os.path.join(scratch, ident + ".txt")
+        sc.L.write(path, ident)
+        load.register_lut(path)
+        registered = ident
+    try:
+        data = {"area_um": sc.x.copy(), "deform": sc.d.copy()}
+        med = sc.med
+        if route_of(med) == "array":
+            t = np.array(med["temp"], dtype=float)
+            data["temp"] = np.broadcast_to(t, sc.x.shape).copy()
+            med = dict(med, temp=[float(v) for v in data["temp"]])
+        ds = dclab.new_dataset(data)
+        ds.config["setup"]["flow rate"] = sc.fr
+        ds.config["setup"]["channel width"] = sc.cw
+        ds.config["imaging"]["pixel size"] = sc.px
+        ds.config["calculation"]["emodulus lut"] = ident
+        if med["kind"] == "num":
+            ds.config["calculation"]["emodulus viscosity"] = med["v"]
+            want = "B"
+        else:
+            ds.config["calculation"]["emodulus medium"] = med["name"]
+            ds.config["calculation"]["emodulus viscosity model"] = \
+                med["model"] if med["model"] != "herold-2017-fallback" \
+                else "herold-2017"
+            if route_of(med) == "scalar":
+                ds.config["calculation"]["emodulus temperature"] = med["temp"]
+                want = "C"
+            else:
+                want = "A"
+        if "emodulus" not in ds:
+            return "case %s: emodulus not available in the dataset" % want
+        with np.errstate(all="ignore"):
+            got = np.array(ds["emodulus"])
+        if med["kind"] == "known" and med["model"] == "herold-2017-fallback":
+            med = dict(med, model="herold-2017")
+        exp = sc.f(med=med, arg=ident)
+        r = same(exp, got)
+        if r:
+            return ("case %s: ds['emodulus'][%d]=%r, get_emodulus gives %r"
+                    % (want, r[0], r[2], r[1]))
+        if _h(data["area_um"]) != _h(sc.x) or _h(data["deform"]) != _h(sc.d):
+            return "case %s: the dataset's input arrays were modified" % want
+    finally:
+        if registered:
+            load.EXTERNAL_LUTS.pop(registered, None)
+    return None
+
+
+CHECKS = {
+    "reference": chk_reference, "batch": chk_batch,
+    "scalar_vs_array": chk_scalar_vs_array,
+    "proportional": chk_proportional, "rescale": chk_rescale,
+    "px0": chk_px0, "nomutation": chk_nomutation, "lutvia": chk_lutvia,
+    "dataset": chk_dataset,
+}
+NEED_SCRATCH = ("lutvia", "dataset")
+
+
+def run_check(case, scratch, seed=0):
+    """Run the named oracle check on a case; failure description or None."""
+    import random
+    name = case["check"]
+    rng = random.Random(case.get("rseed", seed))
+    sc = Scn(case)
+    fn = CHECKS[name]
+    try:
+        if name in NEED_SCRATCH:
+            return fn(sc, rng, scratch)
+        return fn(sc, rng)
+    except Exception as exc:      # the property promises values, not errors
+        import traceback
+        return "check %s raised %r (%s)" % (
+            name, exc, traceback.format_exc().splitlines()[-3].strip())
+
+
+def gen_scenario(rng, L, n, nice=False, special=False, force_med=None):
+    cw, fr, px = gen_setup(rng, L, nice=nice)
+    med = gen_medium(rng, n, L, cw, fr, force=force_med)
+    x, d, kinds = gen_events(rng, L, cw, px, n, special=special)
+    return dict(lut=lut_to_case(L), cw=cw, fr=fr, px=px, medium=med,
+                x=x, d=d), kinds
+
+
+def oracle_cases(run):
+    """yield (case, kinds)"""
+    rng = run.rng
+    th = run.thorough
+    out = []
+    names = list(CHECKS)
+    # built-in tables: few calls (each triangulates >10^4 nodes), many events
+    for name in BUILTIN:
+        L = builtin_lut(name)
+        for chk in names:
+            reps = (3 if th else 1)
+            if chk == "reference":
+                reps = 6 if th else 2
+            for _ in range(reps):
+                n = {"reference": 3000 if th else 1200, "batch": 40,
+                     "dataset": 30}.get(chk, 150)
+                case, kinds = gen_scenario(
+                    rng, L, n, nice=rng.random() < 0.5,
+                    special=(chk in ("batch", "reference")
+                             and rng.random() < 0.5))
+                case["check"] = chk
+                case["rseed"] = rng.randrange(1 << 30)
+                out.append((case, kinds))
+    # generated tables: many calls, few events
+    for k in range(400 if th else 60):
+        L = gen_user_lut(rng, dyadic=rng.random() < 0.3, nmax=60)
+        for chk in names:
+            if rng.random() < 0.5 and chk not in ("reference", "batch"):
+                continue
+            n = rng.choice([1, 2, 3, 7, 20, 60])
+            case, kinds = gen_scenario(
+                rng, L, n, nice=rng.random() < 0.5,
+                special=(chk in ("batch", "reference")
+                         and rng.random() < 0.3))
+            case["lut"]["via"] = "tuple"
+            case["check"] = chk
+            case["rseed"] = rng.randrange(1 << 30)
+            out.append((case, kinds))
+    return out
+
+
+def _work(args):
+    case, scratch = args
+    import warnings
+    warnings.simplefilter("ignore")
+    return run_check(case, scratch)
+
+
+def oracle(run):
+    import multiprocessing as mp
+    cases = [(c, ["corpus"]) for c in load_corpus() if "check" in c]
+    cases += oracle_cases(run)
+    jobs = [(c, run.scratch) for c, _ in cases]
+    ctx = mp.get_context("fork")
+    with ctx.Pool(min(common.NCPU, 12)) as pool:
+        results = pool.map(_work, jobs, chunksize=4)
+    for (case, kinds), fail in zip(cases, results):
+        n = len(case["x"])
+        run.record_case(case, n > 0, sample=n <= 8)
+        run.count("oracle:%s" % case["check"])
+        run.count("oracle:lut=%s" % (case["lut"].get("name")
+                                     or "user-" + case["lut"]["feat"]))
+        run.count("oracle:events", n)
+        run.count("oracle:route=%s" % route_of(case["medium"]))
+        for k in set(kinds):
+            run.count("oracle:event=%s" % k, kinds.count(k))
+        if fail is not None:
+            run.oracle_failure(case, "[%s] %s" % (case["check"], fail),
+                               classify(case, fail))
+    oracle_hypotheses(run)
+
+
+def classify(case, fail):
+    """no known finding for C05"""
+    return None
+
+
+def oracle_hypotheses(run):
+    """the transcribed formulas used as oracle values, and the hypothesis
+    delta_rescale of the rescaling theorem, against the real functions"""
+    from dclab.features.emodulus import pxcorr, viscosity
+    rng = run.rng
+    for _ in range(300 if run.thorough else 60):
+        feat = rng.choice(["area_um", "volume"])
+        px = rng.uniform(0.1, 0.8)
+        x = np.array([rng.uniform(0, 2000) for _ in range(20)])
+        lam = rng.uniform(0.3, 3)
+        p = 2 if feat == "area_um" else 3
+        a = pxcorr.get_pixelation_delta("deform", feat, x, px)
+        b = pxcorr.get_pixelation_delta("deform", feat, x * lam ** p, px * lam)
+        c = ref_delta(feat, x, px)
+        case = dict(check="hyp-delta", feat=feat, px=px, lam=lam,
+                    x=[float(v) for v in x])
+        run.record_case(case, True, sample=False)
+        run.count("oracle:hyp-delta")
+        if not np.allclose(a, b, rtol=1e-11, atol=0):
+            run.oracle_failure(case, "pixelation offset is not invariant "
+                               "under joint rescaling of pixel size and %s: "
+                               "%r vs %r" % (feat, a[:3], b[:3]))
+        if not np.allclose(a, c, rtol=1e-12, atol=0):
+            run.oracle_failure(case, "pixelation offset differs from the "
+                               "documented formula: %r vs %r" % (a[:3], c[:3]))
+        name, model = rng.choice(KNOWN)
+        cw, fr = rng.uniform(10, 50), rng.uniform(0.01, 1.2)
+        lo, hi = (22.0, 26.0) if name != "water" else (5.0, 38.0)
+        t = np.array([rng.uniform(lo, hi) for _ in range(5)])
+        v = viscosity.get_viscosity(name, cw, fr, t, model)
+        w = ref_viscosity(name, model, cw, fr, t)
+        v2 = viscosity.get_viscosity(name, cw * lam, fr * lam ** 3, t, model)
+        case = dict(check="hyp-eta", medium=name, model=model, cw=cw, fr=fr,
+                    t=[float(q) for q in t])
+        run.record_case(case, True, sample=False)
+        run.count("oracle:hyp-eta")
+        if not np.allclose(v, w, rtol=1e-12, atol=0):
+            run.oracle_failure(case, "viscosity differs from the documented "
+                               "formula: %r vs %r" % (v, w))
+        if not np.allclose(v, v2, rtol=1e-11, atol=0):
+            run.oracle_failure(case, "viscosity changes under joint "
+                               "rescaling (shear rate is invariant): %r vs "
+                               "%r" % (v, v2))
+
+
 def run(run):
     correspondence(run)
+    oracle(run)
+
+
+def shrink(run, failure):
+    case = failure["case"]
+    if "x" not in case or "check" not in case or len(case["x"]) <= 1:
+        return failure
+    best = case
+    desc = failure["desc"]
+    # try single events, then halves
+    n = len(case["x"])
+
+    def sub(idx):
+        c = dict(best, x=[best["x"][i] for i in idx],
+                 d=[best["d"][i] for i in idx])
+        m = c["medium"]
+        if m["kind"] == "known" and isinstance(m["temp"], list) and \
+                len(m["temp"]) == len(best["x"]):
+            c["medium"] = dict(m, temp=[m["temp"][i] for i in idx])
+        return c
+    changed = True
+    while changed and len(best["x"]) > 1:
+        changed = False
+        n = len(best["x"])
+        cands = [list(range(n // 2)), list(range(n // 2, n))]
+        if n <= 12:
+            cands += [[j for j in range(n) if j != i] for i in range(n)]
+        for idx in cands:
+            if not idx:
+                continue
+            c = sub(idx)
+            f = run_check(c, run.scratch)
+            if f is not None:
+                best, desc, changed = c, "[%s] %s" % (c["check"], f), True
+                break
+    return dict(case=best, desc=desc, finding=failure.get("finding"))
+
+
+def search(run, broken):
+    """Proof or correspondence broken and the oracle was quiet: a larger
+    oracle-only sweep on the real code."""
+    import random
+    rng = run.rng
+    for k in range(600 if run.thorough else 200):
+        L = gen_user_lut(rng, dyadic=rng.random() < 0.3, nmax=60) \
+            if k % 10 else builtin_lut(rng.choice(BUILTIN))
+        for chk in CHECKS:
+            n = rng.choice([1, 3, 20, 100])
+            case, _ = gen_scenario(rng, L, n, nice=rng.random() < 0.5,
+                                   special=False)
+            case["check"] = chk
+            case["rseed"] = rng.randrange(1 << 30)
+            f = run_check(case, run.scratch)
+            if f is not None and classify(case, f) is None:
+                return shrink(run, dict(case=case, desc="[%s] %s" % (chk, f)))
+    return None
 
 
 def replay(payload):
+    import tempfile
+    import shutil
     case = payload.get("case")
-    if not case:
+    if not case or ("check" not in case and "x" not in case):
         print("replay: nothing executable in this file (kind=%s): %s" % (
             payload.get("kind"), json.dumps(payload.get("broken"))[:2000]))
         return 1
     print("case:", json.dumps(case)[:3000])
+    if "check" not in case:
+        # a correspondence case: run the independent reference on it
+        case = dict(case, check="reference")
+    if case["check"].startswith("hyp-"):
+        print("hypothesis check; re-run ./check C05")
+        return 1
+    scratch = tempfile.mkdtemp(prefix="verif-C05-replay-",
+                               dir=os.environ.get("VERIF_SCRATCH", "/var/tmp"))
+    try:
+        fail = run_check(case, scratch)
+    finally:
+        shutil.rmtree(scratch, ignore_errors=True)
+    if fail:
+        print("FAILS: [%s] %s" % (case["check"], fail))
+        return 1
+    print("passes on the current tree")
     return 0
